@@ -146,3 +146,34 @@ func VerifSprayCopies(a Algorithm, bid bpv7.BundleID) (copies uint64, known bool
 	}
 	return 0, false
 }
+
+// --- PRoPHET seams: each function runs the algorithm's own (unexported) code once ---
+
+// VerifNewProphet creates a fresh PRoPHET instance on the Core (its cron registration may report a duplicate name).
+func VerifNewProphet(c *Core, cfg ProphetConfig) *Prophet { return NewProphet(c, cfg) }
+
+// VerifEncounter runs the encounter update for a peer.
+func (prophet *Prophet) VerifEncounter(peer bpv7.EndpointID) {
+	prophet.dataMutex.Lock()
+	prophet.encounter(peer)
+	prophet.dataMutex.Unlock()
+}
+
+// VerifAge runs the registered ageing task.
+func (prophet *Prophet) VerifAge() { prophet.ageCron() }
+
+// VerifVector feeds a received metadata bundle to NotifyNewBundle without filing it in the store.
+func (prophet *Prophet) VerifVector(b bpv7.Bundle) {
+	prophet.NotifyNewBundle(BundleDescriptor{Id: b.ID(), bndl: &b, store: prophet.c.store})
+}
+
+// VerifOwn returns a copy of the node's own predictabilities.
+func (prophet *Prophet) VerifOwn() map[bpv7.EndpointID]float64 {
+	prophet.dataMutex.RLock()
+	defer prophet.dataMutex.RUnlock()
+	out := map[bpv7.EndpointID]float64{}
+	for k, v := range prophet.predictabilities {
+		out[k] = v
+	}
+	return out
+}
